@@ -2,7 +2,7 @@ SPECIFICATION LSpec
 CONSTANTS
   MaxLen = 0
   ReadSize = 1
-  Classes = {"idn", "describe", "describe_dot", "describe_m", "read_p", "read_s", "read_hw", "read_nomod", "change_p3", "change_p7", "change_range", "change_s", "change_type", "change_ro", "do_cmd", "do_noarg", "ping", "ping_bare", "activate", "activate_m", "deactivate", "deactivate_m", "logging_on", "logging_off", "empty", "blanks", "help", "help_x", "bad_utf8_spec", "bad_utf8_act", "bad_utf8_data", "bad_utf8_crlf", "bad_json", "extra_tokens", "missing_spec", "missing_data", "extra_read", "extra_ping", "crlf", "lead_blank", "trail_blank", "lead_badjson", "trail_badjson", "double_sp", "long_valid", "long_junk", "unknown", "c_request", "c_request_x", "c_ident", "c_help_d", "c_ident_x", "nonascii_badjson", "deep_list_open", "deep_dict_open", "deep_list_50k", "deep_dict_50k", "deep_list", "deep_dict", "huge_int", "read_k", "change_k", "read_broken", "change_broken", "do_broken", "read_m", "change_m", "do_stop", "change_t", "read_t", "surrogate_t", "long_valid_3k"}
+  Classes = {"idn", "describe", "describe_dot", "describe_m", "read_p", "read_s", "read_hw", "read_nomod", "change_p3", "change_p7", "change_range", "change_s", "change_type", "change_ro", "do_cmd", "do_noarg", "ping", "ping_bare", "activate", "activate_m", "deactivate", "deactivate_m", "logging_on", "logging_off", "empty", "blanks", "help", "help_x", "bad_utf8_spec", "bad_utf8_act", "bad_utf8_data", "bad_utf8_crlf", "bad_json", "extra_tokens", "missing_spec", "missing_data", "extra_read", "extra_ping", "crlf", "lead_blank", "trail_blank", "lead_badjson", "trail_badjson", "double_sp", "long_valid", "long_junk", "unknown", "c_request", "c_request_x", "c_ident", "c_help_d", "c_ident_x", "nonascii_badjson", "deep_list_open", "deep_dict_open", "deep_list_50k", "deep_dict_50k", "deep_list", "deep_dict", "huge_int", "read_k", "change_k", "read_broken", "change_broken", "do_broken", "read_m", "change_m", "do_stop", "change_t", "read_t", "surrogate_t", "long_valid_3k", "ping_long"}
   MaxPend = 2
   Threads = {"req"}
   UseLock = TRUE
